@@ -6,6 +6,7 @@
 //! loom's Mutex/Condvar/RwLock/atomics/mpsc/thread and a virtual clock.
 
 mod c12;
+mod c18;
 #[path = "../../common/ctx.rs"]
 mod ctx;
 mod harness;
@@ -36,11 +37,63 @@ fn child(args: &[String]) {
                 });
             harness::run_child(bound, max_secs, move || c12::body(&spec));
         }
+        "C18" => {
+            let spec = c18::catalogue(thorough)
+                .into_iter()
+                .find(|s| s.name == name)
+                .unwrap_or_else(|| {
+                    eprintln!("unknown harness {name}");
+                    std::process::exit(2)
+                });
+            harness::run_child(bound, max_secs, move || c18::body(&spec));
+        }
         _ => {
             eprintln!("unknown property {prop}");
             std::process::exit(2)
         }
     }
+}
+
+/// Generic parent for linearizability-style loom catalogues.
+fn run_catalogue(
+    id: &'static str,
+    tier: Tier,
+    names: Vec<String>,
+    bound: Option<usize>,
+    deadlock_key: &str,
+    samples: Vec<serde_json::Value>,
+    rule: &str,
+    assumptions: &[&str],
+) -> ! {
+    let ctx = Ctx::new(id, tier);
+    let jobs: Vec<Job> = names
+        .iter()
+        .map(|n| Job { name: n.clone(), bound, max_secs: tier.pick(40, 600) })
+        .collect();
+    let sum = harness::run_jobs(&ctx, tier.name(), jobs, deadlock_key);
+    if sum.distinct_outcomes.len() < 2 && !ctx.has_violation() {
+        ctx.machinery("vacuous exploration: fewer than 2 distinct outcomes over all harnesses");
+    }
+    let coverage = json!({
+        "states": sum.schedules.max(1),
+        "transitions": sum.schedules.max(1),
+        "traces_validated_against_impl": sum.schedules,
+        "samples": samples,
+        "exhaustive": sum.incomplete.is_empty(),
+        "harnesses": sum.harnesses,
+        "schedules": sum.schedules,
+        "preemption_bound": bound,
+        "incomplete_harnesses(cap hit)": sum.incomplete,
+        "distinct_outcomes": sum.distinct_outcomes.len(),
+        "harnesses_with_single_outcome": sum.single_outcome_harnesses,
+        "per_harness": sum.per_harness.iter().map(|h| {
+            let mut h = h.clone();
+            if let Some(o) = h.get_mut("outcomes") { *o = json!(o.as_object().map(|m| m.len()).unwrap_or(0)); }
+            h
+        }).collect::<Vec<_>>(),
+        "rule": rule,
+    });
+    ctx.finish("model_checking", coverage, assumptions)
 }
 
 fn run_c12(tier: Tier) -> ! {
@@ -135,6 +188,20 @@ fn main() {
     };
     match prop.as_str() {
         "C12" => run_c12(tier),
+        "C18" => {
+            let specs = c18::catalogue(tier == Tier::Thorough);
+            let samples = specs.iter().take(3).map(|s| json!({"harness": s.name, "threads": format!("{:?}", s.threads)})).collect();
+            run_catalogue(
+                "C18",
+                tier,
+                specs.iter().map(|s| s.name.clone()).collect(),
+                None,
+                "C18:deadlock",
+                samples,
+                "each harness = 2-3 threads of registry operations on colliding peers and keys over the real peer.rs under loom; per-thread results and final observations of every schedule must equal those of some sequential order on the reference model",
+                &["sequentially consistent interleavings at lock/atomic granularity (loom); broadcast linearizes at its snapshot"],
+            )
+        }
         _ => {
             eprintln!("unknown property {prop}");
             std::process::exit(2)
